@@ -43,7 +43,7 @@ Open Scope N_scope.
 
 Section C11.
 Variable fmtv : list N -> list N -> list N.
-Variable fmt_diff : list N -> list N -> list N.
+Variable fmt_diff : list N -> list N -> list N -> list N.
 Variable fmt_pi : list N -> list N.
 Variable fstr : list N -> list N.
 Variable fzero : list N -> bool.
@@ -71,21 +71,21 @@ Theorem C11_values_fixed : forall o m text m',
   Forall (value_fixed fzero) (s_items (l_params (m_las m'))).
 Proof. exact (write_values_fixed fmtv fmt_diff fmt_pi fstr fzero numeq). Qed.
 
-Theorem C11_refreshed_is_text : forall c, exists s, fmt_index_cell fmtv c = VStr s.
+Theorem C11_refreshed_is_text : forall f c, exists s, fmt_index_cell fmtv f c = VStr s.
 Proof. exact (refreshed_is_text fmtv). Qed.
 
-Theorem C11_refreshed_shapes : forall idx,
-  (strt_of fmtv idx = VNone \/ exists s, strt_of fmtv idx = VStr s) /\
-  (stop_of fmtv idx = VNone \/ exists s, stop_of fmtv idx = VStr s) /\
-  (step_of fmtv fmt_diff idx = VNone \/ exists s, step_of fmtv fmt_diff idx = VStr s).
-Proof. exact (fun idx => conj (strt_of_shape fmtv idx) (conj (stop_of_shape fmtv idx) (step_of_shape fmtv fmt_diff idx))). Qed.
+Theorem C11_refreshed_shapes : forall f idx,
+  (strt_of fmtv f idx = VNone \/ exists s, strt_of fmtv f idx = VStr s) /\
+  (stop_of fmtv f idx = VNone \/ exists s, stop_of fmtv f idx = VStr s) /\
+  (step_of fmtv fmt_diff f idx = VNone \/ exists s, step_of fmtv fmt_diff f idx = VStr s).
+Proof. exact (fun f idx => conj (strt_of_shape fmtv f idx) (conj (stop_of_shape fmtv f idx) (step_of_shape fmtv fmt_diff f idx))). Qed.
 
 (* norm_las: the in-place normalisation of ~Well and ~Parameter values *)
-Theorem C11_refresh_idem_values : forall m l2,
-  refresh_sss fmtv fmt_diff numeq m = Some l2 ->
-  exists l2', refresh_sss fmtv fmt_diff numeq (mkmlas (norm_las fzero l2) (m_index_initial m)) = Some l2' /\
+Theorem C11_refresh_idem_values : forall f m l2,
+  refresh_sss fmtv fmt_diff numeq f m = Some l2 ->
+  exists l2', refresh_sss fmtv fmt_diff numeq f (mkmlas (norm_las fzero l2) (m_index_initial m)) = Some l2' /\
               norm_las fzero l2' = norm_las fzero l2.
-Proof. exact (refresh_std_idem fmtv fmt_diff numeq fzero). Qed.
+Proof. exact (fun f => refresh_std_idem fmtv fmt_diff numeq f fzero). Qed.
 
 Section Tokens.
 Hypothesis Hfix : forall f t, fmtv f (fmtv f t) = fmtv f t.
@@ -121,7 +121,7 @@ Proof. exact cycles_fixed. Qed.
 
 (* ---- non-vacuity ---------------------------------------------------------------------------------- *)
 Definition t_fmtv (f t : list N) : list N := match t with [] => s2l "0.00000" | _ => t end.
-Definition t_fmt_diff (b a : list N) : list N := s2l "1.00000".
+Definition t_fmt_diff (f b a : list N) : list N := s2l "1.00000".
 Definition t_fmt_pi (f : list N) : list N := s2l "3.14159".
 Definition t_fstr (t : list N) : list N := t.
 Definition t_fzero (t : list N) : bool := str_eqb t (s2l "0.0").
